@@ -26,7 +26,9 @@ CLAIMED = {
             'element context is the surviving witnesses); every read entry point is compared with it on every SPEC state.', '§6 C04'),
     'C05': (IND + 'SPEC_Map<Orswot> is the property statement (key present iff an applied update is not covered by an applied key remove; nested '
             'members survive iff not covered); L_apply for updates and key removes (also overtaking ones), L_dup and all reads are decided by the '
-            'solver. Nested values: Orswot with nested adds; nested MVReg/Map values, nested removes and Map::merge are outside this check.', '§6 C05'),
+            'solver. Nested values: Orswot with nested adds (inductive), plus two scenario families on Map<_, MVReg> (remove vs concurrent overwrite; '
+            'remove after a write that had seen another key) whose deviations are the listed known findings D2; nested Map values, nested removes and '
+            'Map::merge are outside this check.', '§6 C05'),
     'C06': (IND + 'SPEC_MVReg = one value per applied write not observed by another applied write; K ranges over ALL subsets of the writes (no '
             'delivery-order assumption), every stored order of the value vector is covered, equal concurrent values are a cover point.', '§6 C06'),
     'C07': ('On every SPEC(U,K) state of top-level Orswot, Map<Orswot> and MVReg each read entry point is compared with the specification (add context '
@@ -71,7 +73,8 @@ CLAIMED = {
             'Map<Orswot> (entry clocks, nested sets, pending removes; 10 output slices) are compared with the same specification.', '§6 C18'),
     'C20': (IND + 'Every lemma compares with == (the PartialEq of the crate) against SPEC(U,K), which holds exactly the clock, the surviving elements with '
             'their witnesses and the still-pending removes: equal knowledge gives == states and a fully delivered remove leaves no residue (Orswot, '
-            'MVReg, Map<Orswot> op path, counters, registers).', '§6 C20'),
+            'MVReg, Map<Orswot> op path, counters, registers, List/GList histories). For Map<_, MVReg> the order-dependent hidden value clock (D2) is '
+            'a listed known finding reproduced by the solver on every run.', '§6 C20'),
 }
 
 NOT_APPLICABLE = {
